@@ -1,15 +1,210 @@
 (* C03 - Unifying scalars, types and bounds is exact set intersection.
-   Only statements, closed by [exact], and Print Assumptions. *)
-From Verif Require Import Base.Order Scalar.Spec Scalar.Model Scalar.Proofs.
-From Coq Require Import List ZArith NArith.
+
+   Spec  : Scalar/Spec.v   ([sat], [sat_all]: the set semantics of the property text)
+   Impl  : Scalar/Model.v  ([simplify] = adt.SimplifyBounds, [insert] = insertValueConjunct,
+                            [finish] = validateValue, [run] = evaluating c1 & ... & cn,
+                            [run_with cs a] = unifying that expression with the atom a)
+   This file contains only statements, closed by [exact], and Print Assumptions. *)
+From Verif Require Import Base.Order Scalar.Spec Scalar.Model Scalar.DecProofs Scalar.Proofs
+     Scalar.Accum Scalar.Theorems Scalar.Examples.
+From Coq Require Import List ZArith NArith QArith Permutation.
 Import ListNotations.
 
+(* numeric comparison is by exact decimal value: no rounding, for all decimals *)
+Theorem C03_numeric_compare_exact : forall x y : dec, dcmp x y = (dval x ?= dval y)%Q.
+Proof. exact dcmp_Qcompare. Qed.
+Print Assumptions C03_numeric_compare_exact.
+
+(* int and float literals stay distinct kinds (both are numbers) *)
 Theorem C03_int_float_distinct : forall re z d,
   sat re (AInt z) (CElem (KAtom (AFloat d))) = false /\
   sat re (AFloat d) (CElem (KAtom (AInt z))) = false /\
   sat re (AInt z) (CElem (KType TFloat)) = false /\
   sat re (AFloat d) (CElem (KType TInt)) = false /\
   sat re (AInt z) (CElem (KType TNumber)) = true /\
-  sat re (AFloat d) (CElem (KType TNumber)) = true.
+  sat re (AFloat d) (CElem (KType TNumber)) = true /\
+  (forall cs, run_with re (CElem (KAtom (AFloat d)) :: cs) (AInt z) = RBottom) /\
+  (forall cs, run_with re (CElem (KType TFloat) :: cs) (AInt z) = RBottom) /\
+  (forall cs, run_with re (CElem (KAtom (AInt z)) :: cs) (AFloat d) = RBottom) /\
+  (forall cs, run_with re (CElem (KType TInt) :: cs) (AFloat d) = RBottom).
 Proof. exact int_float_distinct. Qed.
 Print Assumptions C03_int_float_distinct.
+
+(* SimplifyBounds, for ALL decimals, strings and bytes (no alphabet bound), every
+   kind mask k and every atom a of the node's kind: a returned operand is
+   equivalent to the pair, bottom means no atom satisfies both.  Side condition
+   [bsafe]: no operand is a fractional decimal whose integral part has 35 or
+   more digits (see C03_simplify_refuted). *)
+Theorem C03_simplify_sound : forall re k x y a,
+  has k a = true -> has (bound_kind x) a = true -> has (bound_kind y) a = true ->
+  bsafe x = true -> bsafe y = true ->
+  match simplify re k x y with
+  | SKeepX => satb re a x = satb re a x && satb re a y
+  | SKeepY => satb re a y = satb re a x && satb re a y
+  | SBottom => satb re a x && satb re a y = false
+  | SNone => True
+  end.
+Proof. exact simplify_sound. Qed.
+Print Assumptions C03_simplify_sound.
+
+(* without any side condition: an operand is dropped only if the other implies it *)
+Theorem C03_simplify_keep_sound : forall re k x y a,
+  has k a = true -> has (bound_kind x) a = true -> has (bound_kind y) a = true ->
+  match simplify re k x y with
+  | SKeepX => satb re a x = true -> satb re a y = true
+  | SKeepY => satb re a y = true -> satb re a x = true
+  | _ => True
+  end.
+Proof. exact simplify_keep_sound. Qed.
+Print Assumptions C03_simplify_keep_sound.
+
+(* the side condition is needed: the faithful model refutes the unconditional statement *)
+Theorem C03_simplify_refuted : forall re,
+  let x := mkbound OGe (fl false 123456789012345678901234567890123455 (-1)) in
+  let y := mkbound OLe (AInt 12345678901234567890123456789012348) in
+  simplify re IntKind x y = SBottom /\
+  satb re f1_atom x && satb re f1_atom y = true.
+Proof. exact simplify_refuted. Qed.
+Print Assumptions C03_simplify_refuted.
+
+(* BoundValue.validate decides membership in the bound's set *)
+Theorem C03_validate_is_sat : forall re x a,
+  has (bound_kind x) a = true -> validate re x a = satb re a x.
+Proof. exact validate_sat. Qed.
+Print Assumptions C03_validate_is_sat.
+
+(* one insertion, any state satisfying the invariant, any conjunct: the admitted
+   set shrinks by exactly that conjunct (-> always, <- under the side condition) *)
+Theorem C03_insert_exact : forall re safe s v,
+  Inv safe s -> vwf v = true -> (safe = true -> vsafe v = true) ->
+  Inv safe (insert re s v) /\
+  (forall a, Sat re (insert re s v) a -> Sat re s a /\ satv re a v = true) /\
+  (safe = true -> forall a, Sat re s a -> satv re a v = true -> Sat re (insert re s v) a).
+Proof. exact insert_spec. Qed.
+Print Assumptions C03_insert_exact.
+
+(* NO FALSE ACCEPT (unconditional, all conjunctions, all operands): whatever atom
+   the evaluator reports satisfies every conjunct ... *)
+Theorem C03_accept_sound : forall re cs w, run re cs = RAtom w -> sat_all re w cs = true.
+Proof. exact accept_sound. Qed.
+Print Assumptions C03_accept_sound.
+
+(* ... and an atom that violates some conjunct never unifies (unconditional) *)
+Theorem C03_reject_complete : forall re cs a, sat_all re a cs = false -> run_with re cs a = RBottom.
+Proof. exact reject_complete. Qed.
+Print Assumptions C03_reject_complete.
+
+(* EXACTNESS: an atom unifies with the conjunction iff it satisfies every
+   conjunct, and the result is that atom (up to the spelling of a decimal:
+   1.0 / 1.00), under the side condition [all_safe] *)
+Theorem C03_accumulate_exact_when : forall re cs a, all_safe cs = true ->
+  if sat_all re a cs then exists w, run_with re cs a = RAtom w /\ atom_eqb a w = true
+  else run_with re cs a = RBottom.
+Proof. exact unify_atom_exact_when. Qed.
+Print Assumptions C03_accumulate_exact_when.
+
+(* the same for an atom at any position of the conjunction *)
+Theorem C03_accumulate_exact_anywhere_when : forall re cs a, all_safe cs = true -> In (CElem (KAtom a)) cs ->
+  if sat_all re a cs then exists w, run re cs = RAtom w /\ atom_eqb a w = true
+  else run re cs = RBottom.
+Proof. exact accumulate_exact_when. Qed.
+Print Assumptions C03_accumulate_exact_anywhere_when.
+
+(* bottom only if no atom satisfies the conjunction, under the side condition *)
+Theorem C03_bottom_only_if_unsat_when : forall re cs, all_safe cs = true -> run re cs = RBottom ->
+  forall a, sat_all re a cs = false.
+Proof. exact bottom_only_if_unsat_when. Qed.
+Print Assumptions C03_bottom_only_if_unsat_when.
+
+(* when the evaluator reports an atom it is the only candidate (unconditional) *)
+Theorem C03_pinned_atom_correct : forall re cs w, run re cs = RAtom w ->
+  forall a, sat_all re a cs = true -> atom_eqb a w = true.
+Proof. exact pinned_atom_correct. Qed.
+Print Assumptions C03_pinned_atom_correct.
+
+(* the verdict of a conjunction containing an atom does not depend on the order *)
+Theorem C03_order_independent_when : forall re cs cs' a, Permutation cs cs' -> all_safe cs = true ->
+  In (CElem (KAtom a)) cs -> verdict_equiv (run re cs) (run re cs').
+Proof. exact order_independent_when. Qed.
+Print Assumptions C03_order_independent_when.
+
+(* REFUTED without the side condition (finding C03-F1): a satisfiable conjunction
+   that the faithful model - and the implementation - evaluates to bottom *)
+Theorem C03_impl_refuted : forall re,
+  sat_all re f1_atom f1_cs = true /\
+  run re f1_cs = RBottom /\
+  run_with re f1_cs f1_atom = RBottom /\
+  all_safe f1_cs = false.
+Proof. exact impl_refuted. Qed.
+Print Assumptions C03_impl_refuted.
+
+(* observation: for atom-free unsatisfiable conjunctions bottom / not-bottom
+   depends on the order (allowed by C03: bottom ONLY IF unsatisfiable) *)
+Theorem C03_bottom_order_dependent : forall re,
+  Permutation od_cs1 od_cs2 /\
+  run re od_cs1 = RBottom /\ run re od_cs2 = RIncomplete /\
+  all_safe od_cs1 = true /\
+  (forall a, sat_all re a od_cs1 = false).
+Proof. exact bottom_order_dependent. Qed.
+Print Assumptions C03_bottom_order_dependent.
+
+(* ------------------------------------------------------- non-vacuity ---- *)
+
+Example C03_ex_ge1_le1 : forall re,
+  run re [B OGe (AInt 1); B OLe (AInt 1)] = RIncomplete /\
+  run_with re [B OGe (AInt 1); B OLe (AInt 1)] (AInt 1) = RAtom (AInt 1) /\
+  run_with re [B OGe (AInt 1); B OLe (AInt 1)] (fl false 10 (-1)) = RAtom (fl false 10 (-1)) /\
+  run_with re [B OGe (AInt 1); B OLe (AInt 1)] (AInt 2) = RBottom.
+Proof. exact ex_ge1_le1. Qed.
+Print Assumptions C03_ex_ge1_le1.
+
+Example C03_ex_int_frac : forall re,
+  let cs := [T TInt; B OGt (fl false 15 (-1)); B OLt (fl false 25 (-1))] in
+  run re cs = RIncomplete /\ run_with re cs (AInt 2) = RAtom (AInt 2) /\
+  run_with re cs (fl false 20 (-1)) = RBottom /\ run_with re cs (AInt 3) = RBottom /\
+  all_safe cs = true.
+Proof. exact ex_int_frac. Qed.
+Print Assumptions C03_ex_int_frac.
+
+Example C03_ex_gt1_lt2_int_all_orders : forall re,
+  let a := B OGt (AInt 1) in let b := B OLt (AInt 2) in let c := T TInt in
+  forallb (fun cs => match run re cs with RBottom => true | _ => false end)
+          [[a; b; c]; [a; c; b]; [b; a; c]; [b; c; a]; [c; a; b]; [c; b; a]] = true /\
+  run re [a; b] = RIncomplete.
+Proof. exact ex_gt1_lt2_int_all_orders. Qed.
+Print Assumptions C03_ex_gt1_lt2_int_all_orders.
+
+Example C03_ex_gt1_lt3_int : forall re,
+  let cs := [B OGt (AInt 1); B OLt (AInt 3); T TInt] in
+  run re cs = RIncomplete /\ run_with re cs (AInt 2) = RAtom (AInt 2) /\
+  run_with re cs (AInt 1) = RBottom /\ run_with re cs (AInt 3) = RBottom /\
+  run_with re cs (fl false 20 (-1)) = RBottom.
+Proof. exact ex_gt1_lt3_int. Qed.
+Print Assumptions C03_ex_gt1_lt3_int.
+
+Example C03_ex_ne_null_and_kinds : forall re,
+  run_with re [B ONe ANull] (AInt 1) = RAtom (AInt 1) /\
+  run_with re [B ONe ANull] ANull = RBottom /\
+  run_with re [A (AInt 1)] (fl false 10 (-1)) = RBottom /\
+  run_with re [B OLe (fl false 10 (-1))] (AInt 1) = RAtom (AInt 1) /\
+  run_with re [CRange RFloat32] (AInt 1) = RAtom (AInt 1) /\
+  run_with re [CRange RUint8] (AInt 256) = RBottom /\
+  run_with re [CRange RUint8] (fl false 10 (-1)) = RBottom.
+Proof. exact ex_ne_null_and_kinds. Qed.
+Print Assumptions C03_ex_ne_null_and_kinds.
+
+Example C03_ex_exact_hyps :
+  let cs := [T TInt; B OGt (fl false 15 (-1)); B OLt (fl false 25 (-1)); A (AInt 2)] in
+  all_safe cs = true /\ In (A (AInt 2)) cs /\ sat_all no_re (AInt 2) cs = true /\
+  run no_re cs = RAtom (AInt 2).
+Proof. exact ex_exact_hyps. Qed.
+Print Assumptions C03_ex_exact_hyps.
+
+Example C03_ex_regexp :
+  let re := fun p s => match p, s with [94%N; 97%N], (97%N :: _) => true | _, _ => false end in
+  run_with re [B OMatch (AStr [94%N; 97%N])] (AStr [97%N; 98%N]) = RAtom (AStr [97%N; 98%N]) /\
+  run_with re [B OMatch (AStr [94%N; 97%N])] (AStr [98%N]) = RBottom /\
+  run_with re [B ONMatch (AStr [94%N; 97%N])] (AStr [98%N]) = RAtom (AStr [98%N]) /\
+  run_with re [B OMatch (AStr [94%N; 97%N])] (AInt 1) = RBottom.
+Proof. exact ex_regexp. Qed.
+Print Assumptions C03_ex_regexp.
